@@ -498,7 +498,134 @@ def suite_sizes(pid, tier, seed):
                 diffs=diffs[:5], failures=failures, traces=len(cases), stats=dict(cases=len(cases), diffs=len(diffs)))
 
 
-SUITES = dict(seq=suite_seq, crash=suite_crash, fault=suite_fault, codec=suite_codec, range=suite_range, damage=suite_damage, settings=suite_settings, sizes=suite_sizes)
+
+# ------------------------------------------------------------------------------- conc (K6/K7)
+def suite_conc(pid, tier, seed):
+    import subprocess
+    from concurrent.futures import ThreadPoolExecutor
+    spec = PROPS[pid]
+    nprog = 120 if tier == "quick" else 3000
+    nsched = 4 if tier == "quick" else 10
+    rng = random.Random(seed * 1000003 + 61)
+    cases = gen.conc_corpus()
+    for i in range(nprog):
+        prog = gen.conc_case(f"q{i}", rng)
+        for j in range(nsched):
+            cases.append(prog.replace(f"conc q{i}\n", f"conc q{i}s{j}\n", 1).rsplit("seed ", 1)[0] + f"seed {rng.randrange(1, 10**6)}\nend\n")
+    def go():
+        d = run.scratch_dir()
+        try:
+            shards = [cases[i::run.NPROC] for i in range(run.NPROC)]
+            def one(i):
+                f = os.path.join(d, f"c{i}.case"); mo = os.path.join(d, f"c{i}.model")
+                open(f, "w").write("".join(shards[i]))
+                m = subprocess.run([run.DRIVER, "--oracle", f"{run.HX} hashd", "--conc", f], stdout=subprocess.PIPE, stderr=subprocess.DEVNULL, text=True, timeout=2400).stdout
+                open(mo, "w").write(m)
+                r = subprocess.run([run.HX, "conc", f, mo], stdout=subprocess.PIPE, stderr=subprocess.DEVNULL, text=True, timeout=2400, env=dict(run.ENV, HX_TMP=d)).stdout
+                return r, m
+            with ThreadPoolExecutor(max_workers=run.NPROC) as ex:
+                res = list(ex.map(one, range(run.NPROC)))
+            return dict(real="".join(r for r, _ in res), model="".join(m for _, m in res))
+        finally:
+            import shutil; shutil.rmtree(d, ignore_errors=True)
+    r = cached(f"conc-{tier}-{seed}-{nprog}-{nsched}", go)
+    R, M = run.by_case(r["real"]), run.by_case(r["model"])
+    # model-free exploration of the same programs on the real library: schedules the (correct) model
+    # would never choose, e.g. a thread entering a critical section the model considers locked
+    rounds = 12 if tier == "quick" else 60
+    free_cases = gen.conc_corpus() * 3 + [c for c in cases[len(gen.conc_corpus())::nsched]]
+    free_cases = [c.replace("\n", f"_f{i}\n", 1) for i, c in enumerate(free_cases)]
+    def go_free():
+        d = run.scratch_dir()
+        try:
+            outs = []
+            shards = [free_cases[i::run.NPROC] for i in range(run.NPROC)]
+            def one(args):
+                i, rd = args
+                f = os.path.join(d, f"f{i}_{rd}.case")
+                open(f, "w").write("".join(shards[i]))
+                return subprocess.run([run.HX, "conc", f, f"free:{seed * 131 + rd}"], stdout=subprocess.PIPE, stderr=subprocess.DEVNULL, text=True, timeout=2400, env=dict(run.ENV, HX_TMP=d)).stdout
+            with ThreadPoolExecutor(max_workers=run.NPROC) as ex:
+                for rd in range(rounds):
+                    outs.append((rd, "".join(ex.map(one, [(i, rd) for i in range(run.NPROC)]))))
+            return dict(rounds=outs)
+        finally:
+            import shutil; shutil.rmtree(d, ignore_errors=True)
+    fr = cached(f"concfree-{tier}-{seed}-{nprog}-{rounds}", go_free)["rounds"]
+    nfree = 0
+    free_fail = []
+    for rd, out in fr:
+        FR = run.by_case(out)
+        for c in free_cases:
+            name = c.split("\n", 1)[0][5:]
+            rl = FR.get(name, [])
+            nfree += 1
+            for tag, msg in oracle.conc_oracle(c, rl):
+                if tag in spec["tags"]:
+                    sched_txt = "\n".join(" ".join(l.split()[1:6]) for l in rl if l.startswith("S ") and not l.startswith("S init"))
+                    free_fail.append(mk_failure("conc", "conc-free", c + f"# model-free exploration, seed {seed * 131 + rd}; observed schedule:\n" + sched_txt + "\n", f"{name} (free round {rd})", tag, msg))
+    diffs, failures, distinct = [], [], set()
+    nsteps = 0
+    canon = lambda ls: [re.sub(r" (I|S)=\d+", r" \1=*", l) for l in ls[1:]]
+    for c in cases:
+        name = c.split("\n", 1)[0][5:]
+        rl, ml = R.get(name, []), M.get(name, [])
+        d = run.first_diff(canon(rl), canon(ml))
+        if d:
+            diffs.append(f"K6/K7 forced-schedule correspondence differs in case {name}: impl `{d[1][:200]}` vs model `{d[2][:200]}`")
+        for tag, msg in oracle.conc_oracle(c, rl):
+            if tag in spec["tags"]:
+                failures.append(mk_failure("conc", "conc", c + "# schedule (model steps)\n" + "\n".join(" ".join(l.split()[1:6]) for l in ml if l.startswith("S ") and not l.startswith("S init")) + "\n", name, tag, msg))
+        nsteps += sum(1 for l in rl if l.startswith("S "))
+        distinct.add("cc:" + hashlib.sha1("\n".join(" ".join(l.split()[2:6]) for l in rl if l.startswith("S ")).encode()).hexdigest()[:16])
+    failures += free_fail
+    return dict(evaluations=len(cases) + nfree, distinct=distinct, samples=[dict(suite="conc", case=cases[0].splitlines())],
+                diffs=diffs[:5], failures=failures, traces=len(cases), stats=dict(programs=nprog, model_schedules=len(cases), free_schedules=nfree, steps=nsteps, diffs=len(diffs)))
+
+
+
+# ------------------------------------------------------------------------------- race (K9, C11)
+def suite_race(pid, tier, seed):
+    import subprocess
+    from concurrent.futures import ThreadPoolExecutor
+    spec = PROPS[pid]
+    n = 40 if tier == "quick" else 800
+    rng = random.Random(seed * 1000003 + 67)
+    cases = gen.race_cases(rng, n)
+    def go():
+        d = run.scratch_dir()
+        try:
+            shards = [cases[i::run.NPROC] for i in range(run.NPROC)]
+            def one(i):
+                f = os.path.join(d, f"r{i}.txt"); open(f, "w").write("".join(shards[i]))
+                r = subprocess.run([run.HX, "race", f], stdout=subprocess.PIPE, stderr=subprocess.DEVNULL, text=True, timeout=1200, env=dict(run.ENV, LD_PRELOAD=run.SHIM, HX_TMP=d)).stdout
+                m = subprocess.run([run.DRIVER, "--race", f], stdout=subprocess.PIPE, stderr=subprocess.DEVNULL, text=True, timeout=1200).stdout
+                return r, m
+            with ThreadPoolExecutor(max_workers=run.NPROC) as ex:
+                res = list(ex.map(one, range(run.NPROC)))
+            return dict(real="".join(r for r, _ in res), model="".join(m for _, m in res))
+        finally:
+            import shutil; shutil.rmtree(d, ignore_errors=True)
+    r = cached(f"race-{tier}-{seed}-{n}", go)
+    R, M = run.by_case(r["real"]), run.by_case(r["model"])
+    diffs, failures, distinct = [], [], set()
+    nev = 0
+    for c in cases:
+        name = c.split("\n", 1)[0][5:]
+        rl, ml = R.get(name, []), M.get(name, [])
+        d = run.first_diff(rl[1:], ml[1:])
+        if d:
+            diffs.append(f"K9 open/lock correspondence differs in case {name}: impl `{d[1][:160]}` vs model `{d[2][:160]}`")
+        for tag, msg in oracle.race_oracle(c, rl):
+            if tag in spec["tags"]:
+                failures.append(mk_failure("race", "race", c, name, tag, msg))
+        nev += sum(1 for l in rl if l.startswith("E "))
+        distinct.add("rc:" + hashlib.sha1(c.split("\n", 1)[1].encode()).hexdigest()[:16])
+    return dict(evaluations=nev, distinct=distinct, samples=[dict(suite="race", case=cases[0].splitlines()[:12])],
+                diffs=diffs[:5], failures=failures, traces=len(cases), stats=dict(scripts=len(cases), events=nev, diffs=len(diffs)))
+
+
+SUITES = dict(seq=suite_seq, crash=suite_crash, fault=suite_fault, codec=suite_codec, range=suite_range, damage=suite_damage, settings=suite_settings, sizes=suite_sizes, conc=suite_conc, race=suite_race)
 
 # ------------------------------------------------------------------------------- known findings
 KNOWN_CLASSES = {}
